@@ -26,9 +26,10 @@ class Lost(Exception):
 
 TOKEN = re.compile(r"""
     \s*(?:
-      (?P<num>\d+(?:\.\d+)?)
+      (?P<str>"(?:[^"\\]|\\.)*")
+    | (?P<num>\d+(?:\.\d+)?)
     | (?P<id>[A-Za-z_][A-Za-z_0-9]*(?:::[A-Za-z_][A-Za-z_0-9]*)*)
-    | (?P<op>\+\+|--|\+=|-=|\*=|/=|==|!=|<=|>=|&&|\|\||[-+*/%=<>!(){};:,.&\[\]?])
+    | (?P<op><<|\+\+|--|\+=|-=|\*=|/=|==|!=|<=|>=|&&|\|\||[-+*/%=<>!(){};:,.&\[\]?])
     )""", re.X)
 
 
@@ -43,7 +44,9 @@ def lex(src):
                 break
             raise Lost("cannot tokenize near: " + src[pos:pos + 40].strip())
         pos = m.end()
-        if m.group("num") is not None:
+        if m.group("str") is not None:
+            toks.append(("str", m.group("str")))
+        elif m.group("num") is not None:
             toks.append(("num", m.group("num")))
         elif m.group("id") is not None:
             toks.append(("id", m.group("id")))
@@ -164,6 +167,11 @@ class P:
                 elif self.at("op", "."):
                     self.eat()
                     e = ("member", e, self.eat("id"))
+                elif self.at("op", "["):
+                    self.eat()
+                    ix = self.expr()
+                    self.eat("op", "]")
+                    e = ("index", e, ix)
                 else:
                     break
             return e
@@ -205,6 +213,17 @@ class P:
             e = self.expr()
             self.eat("op", ";")
             return ("return", e)
+        if self.at("id", "stream_out") and self.at("op", "<<", 1):
+            self.eat()
+            ops = []
+            while self.at("op", "<<"):
+                self.eat()
+                if self.at("str"):
+                    ops.append(("strlit", self.eat("str")))
+                else:
+                    ops.append(self.addsub())
+            self.eat("op", ";")
+            return ("stream", ops)
         # assignment chain / compound assignment / increment
         lhs = self.postfix()
         if self.at("op", "++"):
@@ -360,6 +379,8 @@ class Emit:
             if n in self.fn.params:
                 return self.fn.params[n]
             if n in self.fn.consts:
+                if n in getattr(self.fn, "str_consts", ()):
+                    return "S"
                 return "N" if n in getattr(self.fn, "nat_consts", ()) else "D"
             raise Lost("unknown name %s in %s" % (n, self.fn.name))
         if k == "call":
@@ -377,6 +398,11 @@ class Emit:
             raise Lost("unknown call %s" % (f,))
         if k == "member":
             return "B"
+        if k == "index":
+            base = e[1]
+            if base[0] == "var" and base[1] in getattr(self.fn, "array_types", {}):
+                return self.fn.array_types[base[1]]
+            raise Lost("indexing of %s" % (base,))
         if k == "bin":
             a, b = self.ty(e[2]), self.ty(e[3])
             return "D" if "D" in (a, b) else "N"
@@ -466,6 +492,11 @@ class Emit:
             if n in self.fn.fields or n in self.fn.params:
                 return self.access(n, args)
             raise Lost("unknown function %s" % n)
+        if k == "index":
+            base, ix = e[1], e[2]
+            if base[0] == "var" and base[1] in getattr(self.fn, "arrays", {}):
+                return self.fn.arrays[base[1]] % self.atom(ix)
+            raise Lost("indexing of %s" % (base,))
         if k == "member":
             # boost::edge(i, j, A(alpha)).second
             b, m = e[1], e[2]
@@ -525,9 +556,13 @@ class Emit:
             return self.atom(g[2][0])
         raise Lost("graph argument is not A(layer)")
 
+    def sty(self):
+        """the Lean type of the state: `Struct α`, or plain `Struct` for a function translated at `Float` only"""
+        return self.fn.struct + ("" if getattr(self.fn, "monomorphic", False) else " α")
+
     # ---- statements: each returns a list of Lean lines computing the new `s` from `s`
     def set_field(self, name, val):
-        return "let s : %s α := { s with %s := %s }" % (self.fn.struct, name, val)
+        return "let s : %s := { s with %s := %s }" % (self.sty(), name, val)
 
     def assign_to(self, lhs, val_text):
         if lhs[0] == "var":
@@ -607,6 +642,8 @@ class Emit:
             return [pad + self.assign_to(lhs, "%s + 1" % self.lhs_value(lhs))]
         if k == "block":
             return self.stmts(st[1], ind)
+        if k == "stream":
+            return self.stream(st[1], ind)
         if k == "return":
             if "ret" not in self.fn.fields:
                 raise Lost("`return` inside the translated part")
@@ -618,7 +655,7 @@ class Emit:
         if k == "if":
             constexpr, c, th, el = st[1], st[2], st[3], st[4]
             cond = self.ex(c)
-            lines = [pad + "let s : %s α := (if %s then" % (self.fn.struct, cond)]
+            lines = [pad + "let s : %s := (if %s then" % (self.sty(), cond)]
             lines += self.stmts(th, ind + 2)
             lines.append(pad + "    s")
             lines.append(pad + "  else")
@@ -683,6 +720,40 @@ class Emit:
             raise Lost("`auto %s = …` outside an edge loop" % st[1])
         raise Lost("unsupported statement kind %s" % k)
 
+    def stream(self, ops, ind):
+        """`stream_out << a << b << std::endl;` on a token-level output: fields `cur` (tokens of the line being
+        written) and `lines`.  A string literal contributes its whitespace-separated words; every value must be
+        followed by whitespace (a literal beginning with a blank) or by `std::endl`, and a literal must end with
+        whitespace unless `std::endl` follows — otherwise neighbouring outputs would fuse into one token: lost anchor."""
+        pad = "  " * ind
+        out = []
+        n = len(ops)
+        for k, op in enumerate(ops):
+            nxt = ops[k + 1] if k + 1 < n else None
+            nxt_ws = nxt is None or nxt == ("var", "std::endl") or (nxt[0] == "strlit" and nxt[1][1:2].isspace())
+            if op[0] == "strlit":
+                text = bytes(op[1][1:-1], "utf-8").decode("unicode_escape")
+                if text and not text[-1].isspace() and not (nxt is None or nxt == ("var", "std::endl")):
+                    raise Lost("string literal %s is not followed by whitespace" % op[1])
+                for w in text.split():
+                    out.append(pad + self.set_field("cur", 's.cur ++ [Tok.s "%s"]' % w.replace('"', '\\"')))
+            elif op == ("var", "std::endl"):
+                out.append(pad + self.set_field("lines", "s.lines ++ [s.cur]"))
+                out.append(pad + self.set_field("cur", "[]"))
+            else:
+                if not nxt_ws:
+                    raise Lost("a value is written without whitespace after it")
+                t = self.ty(op)
+                if t == "N":
+                    out.append(pad + self.set_field("cur", "s.cur ++ [Tok.n %s]" % self.atom(op)))
+                elif t == "D":
+                    out.append(pad + self.set_field("cur", "s.cur ++ [Tok.f %s]" % self.atom(op)))
+                elif t == "S":
+                    out.append(pad + self.set_field("cur", "s.cur ++ [Tok.s %s]" % self.atom(op)))
+                else:
+                    raise Lost("cannot write a value of type %s" % t)
+        return out
+
     def loop(self, head, v, body, ind):
         """a loop: its body becomes a definition of its own (named by its position in the nest), taking the
         function's parameters, the indices of the enclosing loops, its own index and the state"""
@@ -702,7 +773,7 @@ class Emit:
         idx_sig = "".join(" (%s : Nat)" % x for x in outer_idx + [v])
         self.defs.append((name, idx_sig, blines))
         call = "%s %s%s" % (name, self.fn.argnames, "".join(" " + x for x in outer_idx))
-        return [pad + "let s : %s α := %s (%s) s" % (self.fn.struct, head, call.strip())]
+        return [pad + "let s : %s := %s (%s) s" % (self.sty(), head, call.strip())]
 
 
 def norm_ws(s):
